@@ -24,6 +24,33 @@ fn gen_c17(rng: &mut Rng, thorough: bool, out: &mut Cases) {
             vals.push((1u128 << k).min(u64::MAX as u128));
             vals.push(((1u128 << k) - 1).min(u64::MAX as u128));
         }
+        // inputs whose quotient by 1000, 10^6 (or a multiple of 2^32 of them) sits on a power of two or a
+        // multiple of 2^32: where intermediate 32-bit arithmetic would wrap
+        for d in [1000u128, 1_000_000, 1_000_000_000] {
+            for k in 0..64u32 {
+                let q = 1u128 << k;
+                for base in [q * d, (q - 1) * d, (q + 1) * d] {
+                    for off in [0u128, 1, d / 2, d - 1] {
+                        let v = base + off;
+                        if v <= u64::MAX as u128 {
+                            vals.push(v);
+                            if v > 0 {
+                                vals.push(v - 1);
+                            }
+                        }
+                    }
+                }
+            }
+        }
+        for j in 1..1000u128 {
+            // every multiple of 2^32 below the guard, and the second it falls into
+            let v = j << 32;
+            if j % 7 == 0 || j < 20 {
+                for x in [v, v + 1, v - 1, v / unit * unit, v / unit * unit + unit - 1, (v / unit + 1) * unit] {
+                    vals.push(x);
+                }
+            }
+        }
         for _ in 0..n {
             let v = match rng.below(4) {
                 0 => rng.next() as u128,
@@ -396,6 +423,8 @@ fn gen_c03(rng: &mut Rng, thorough: bool, out: &mut Cases) {
         v.extend_from_slice(&body);
         push_parse(out, 21, false, &None, &v);
     }
+    // non-verbose argument construction: exact payloads, every truncation, trailing bytes, boundary field sizes
+    gen_c13_n(rng, if thorough { 30_000 } else { 2_000 }, out);
 }
 
 fn gen_c04(rng: &mut Rng, thorough: bool, out: &mut Cases) {
@@ -438,6 +467,34 @@ fn gen_c05(rng: &mut Rng, thorough: bool, out: &mut Cases) {
         w.msg(&m);
         w.opt_filter(&f);
         out.push(23, w);
+    }
+    // boundary totals (length field 65519 .. 65535) at selected cut positions, both storage modes
+    let nb = if thorough { 200 } else { 24 };
+    for i in 0..nb {
+        let mut o = msg_opts_for(rng, i);
+        o.storage = Some(i % 2 == 0);
+        o.target_total = Some(*rng.pick(&[65535usize, 65534, 65521, 65520, 65519, 32768, 256]));
+        let m = gen_message(rng, &o);
+        let len = match std::panic::catch_unwind(|| m.as_bytes().len()) {
+            Ok(l) => l,
+            Err(_) => continue,
+        };
+        let storage = if m.storage_header.is_some() { 16 } else { 0 };
+        let mut cuts: Vec<usize> = vec![0, 1, 3, 4, 15, 16, 17, storage + 3, storage + 4, storage + 5, storage + 8, storage + 12, storage + 16, storage + 26, storage + 30, len / 2, len - 2, len - 1];
+        for _ in 0..6 {
+            cuts.push(rng.below(len as u64) as usize);
+        }
+        cuts.retain(|k| *k < len);
+        cuts.sort();
+        cuts.dedup();
+        let mut w = W::new();
+        w.msg(&m);
+        w.opt_filter(&if i % 3 == 0 { Some(gen_filter(rng, Some(&m))) } else { None });
+        w.n(cuts.len() as u128);
+        for k in &cuts {
+            w.n(*k as u128);
+        }
+        out.push(31, w);
     }
 }
 
@@ -488,6 +545,33 @@ fn gen_c06(rng: &mut Rng, thorough: bool, out: &mut Cases) {
         w.msg(&m);
         w.b(&rest);
         w.opt_filter(&f);
+        out.push(24, w);
+    }
+    // long pattern-free junk: beyond one maximum-size message, with near misses at its end
+    for (i, jl) in [65547usize, 65548, 65551, 65552, 70000, 131072, 140001].iter().enumerate() {
+        let mut junk: Vec<u8> = (0..*jl).map(|k| if k % 7 == 3 { 0x44 } else { (k % 251) as u8 | 0x80 }).collect();
+        let l = junk.len();
+        junk[l - 3..].copy_from_slice(&[0x44, 0x4c, 0x54][..3]);
+        if i % 2 == 1 {
+            junk[l - 1] = 0x00;
+        }
+        let mut w = W::new();
+        let mut v = junk.clone();
+        v.extend_from_slice(&[0x44, 0x4c, 0x54, 0x01, 1, 2, 3]);
+        w.b(&v);
+        out.push(12, w);
+        let mut w = W::new();
+        w.b(&junk);
+        out.push(12, w);
+        let m = gen_message(rng, &MsgOpts { storage: Some(true), ..MsgOpts::default() });
+        let mut w = W::new();
+        // the junk must not complete a pattern with the message's first bytes: end it with a harmless byte
+        let mut j2 = junk.clone();
+        j2.push(0x2e);
+        w.b(&j2);
+        w.msg(&m);
+        w.b(&gen_suffix(rng));
+        w.opt_filter(&if i % 3 == 0 { Some(gen_filter(rng, Some(&m))) } else { None });
         out.push(24, w);
     }
     // streams with junk between messages
@@ -591,6 +675,10 @@ pub fn gen_signal_type(rng: &mut Rng, allow_fp: bool) -> TypeInfo {
 
 fn gen_c13(rng: &mut Rng, thorough: bool, out: &mut Cases) {
     let n = if thorough { 150_000 } else { 8_000 };
+    gen_c13_n(rng, n, out)
+}
+
+fn gen_c13_n(rng: &mut Rng, n: usize, out: &mut Cases) {
     for i in 0..n {
         let nt = rng.below(6) as usize;
         let tys: Vec<TypeInfo> = (0..nt).map(|_| gen_signal_type(rng, i % 10 == 0)).collect();
